@@ -106,6 +106,16 @@ func unicodeToRune(code []byte) rune {
 	return r
 }
 
+// validateHex4 checks the four digits of a \u escape (the buffer-mode scanner does the same).
+func validateHex4(code []byte, offset int64) error {
+	for _, c := range code {
+		if !(('0' <= c && c <= '9') || ('a' <= c && c <= 'f') || ('A' <= c && c <= 'F')) {
+			return errors.ErrSyntax(fmt.Sprintf("json: invalid character %c in \\u hexadecimal character escape", c), offset)
+		}
+	}
+	return nil
+}
+
 func readAtLeast(s *Stream, n int64, p *unsafe.Pointer) bool {
 	for s.cursor+n >= s.length {
 		if !s.read() {
@@ -124,6 +134,9 @@ func decodeUnicodeRune(s *Stream, p unsafe.Pointer) (rune, int64, unsafe.Pointer
 		return rune(0), 0, nil, errors.ErrInvalidCharacter(s.char(), "escaped string", s.totalOffset())
 	}
 
+	if err := validateHex4(s.buf[s.cursor+1:s.cursor+defaultOffset], s.totalOffset()); err != nil {
+		return rune(0), 0, nil, err
+	}
 	r := unicodeToRune(s.buf[s.cursor+1 : s.cursor+defaultOffset])
 	if utf16.IsSurrogate(r) {
 		if !readAtLeast(s, surrogateOffset, &p) {
@@ -131,6 +144,9 @@ func decodeUnicodeRune(s *Stream, p unsafe.Pointer) (rune, int64, unsafe.Pointer
 		}
 		if s.buf[s.cursor+defaultOffset] != '\\' || s.buf[s.cursor+defaultOffset+1] != 'u' {
 			return unicode.ReplacementChar, defaultOffset, p, nil
+		}
+		if err := validateHex4(s.buf[s.cursor+defaultOffset+2:s.cursor+surrogateOffset], s.totalOffset()); err != nil {
+			return rune(0), 0, nil, err
 		}
 		r2 := unicodeToRune(s.buf[s.cursor+defaultOffset+2 : s.cursor+surrogateOffset])
 		if r := utf16.DecodeRune(r, r2); r != unicode.ReplacementChar {
